@@ -91,6 +91,8 @@ func main() {
 		os.Exit(exit)
 	case "manifest":
 		writeManifest(vdir)
+	case "mutgen":
+		mutgen(repo, args[1:])
 	case "dump":
 		if len(args) < 2 {
 			usage()
